@@ -27,6 +27,12 @@ def tt(a, dtype=None):
 
 def ensure(h, ctx, label, goal, meta=None):
     ctx.oblige("ensures", goal, label=label, loc=("contract", h.hid.split("[")[0], 0), meta=meta)
+    if label == "C12.row-independent" and not ctx.notes.get("_norandom_done") and not getattr(h, "draws_allowed", False):
+        # evaluation consumed no random numbers: a draw (dropout mask, noise) is shared state of the batch - its value for one row depends on
+        # the position of the row and on the size of the batch
+        ctx.notes["_norandom_done"] = True
+        draws = [nm for nm, _ in ctx.notes.get("random_draws", [])]
+        ctx.oblige("ensures", z3.BoolVal(not draws), label="C12.no-random-draw-in-evaluation", loc=("contract", h.hid.split("[")[0], 0), meta={"draws": draws[:5]})
 
 
 def logdet_is_log_derivative(h, ctx, label, out_t, ld_t, x_t, sign=None):
